@@ -995,6 +995,12 @@ class List(list, base.Symbolic, pg_typing.CustomTyping):
   def __deepcopy__(self, memo) -> 'List':
     return self.sym_clone(deep=True, memo=memo)
 
+  def __repr__(self) -> str:
+    """Operator repr()."""
+    # NOTE: `list.__repr__` comes first in the MRO; redirect to the symbolic
+    # one, as `Dict` does, so that `pg.repr_format` applies to lists as well.
+    return base.Symbolic.__repr__(self)
+
   def __hash__(self) -> int:
     """Overriden hashing function."""
     return self.sym_hash()
